@@ -347,8 +347,11 @@ func RunScenario(t *testing.T, sc *Scenario) (w *World) {
 			}
 		}
 	}()
+	hang.begin(sc)
+	defer hang.end()
 	synctest.Test(t, func(t *testing.T) {
 		w = NewWorld(t, sc)
+		hang.world.Store(w)
 		w.run()
 	})
 	return w
